@@ -105,7 +105,8 @@ LEVEL_TEXT = ("Lean 4 theorems over six executable models around the accept boun
               "nothing dispatched after the exiting call, a prompt ends only at an exiting call (a rejected Enter is no "
               "boundary), no double exit, key buffer empty at exit. Layer 3 (input "
               "flush timer): a sequence split across reads closer than ttimeoutlen apart is never flushed in "
-              "between. Layer 4 (the input object in front of the boundary: pipe of characters + Vt100Parser.feed with "
+              "between - stated also for the DEFAULT ttimeoutlen regenerated from Application() and pinned (500 ms; "
+              "timeoutlen 1000 ms). Layer 4 (the input object in front of the boundary: pipe of characters + Vt100Parser.feed with "
               "its bracketed-paste mode, for EVERY normal-mode generator): feed = a character-by-character "
               "specification, hence every chunking of the stream (cuts inside ESC[200~, the pasted text, ESC[201~, "
               "any escape sequence) gives the same key presses and parser state; a paste is ONE key press carrying "
@@ -125,7 +126,8 @@ LEVEL_TEXT = ("Lean 4 theorems over six executable models around the accept boun
               "for the parser layer incl. the 1024-byte read boundary; two inputs in one event loop), an end-to-end "
               "correspondence (k prompts on one pipe: pre-fed, writer thread, writer task, byte-level chunking, "
               "in_thread; k prompt_async() calls on ONE loop with a non-answering vt100 output, a CPR seen on the input and "
-              "writes strictly between prompts) and the property oracle")
+              "writes strictly between prompts; real-time cases with the default ttimeoutlen and a writer pausing "
+              "120-200 ms inside Left / a CPR report) and the property oracle")
 LEVEL_NOTE = ("PARTIAL: read boundaries, finish points and timer expiry are nondeterministic inputs of the models "
               "(the theorems quantify over all of them); the OS pipe, asyncio scheduling, the UTF-8 decoder and the "
               "escape-sequence grammar of the normal-mode generator (C03; a parameter of layer 4, its concrete copy is "
@@ -183,6 +185,8 @@ ASSUMPTIONS = ["asyncio runs callbacks of one loop one at a time (the model's ev
                "one pipe input = one typeahead hash; outputs: DummyOutput (no CPR requests) and Vt100_Output on a "
                "fake tty (CPR request at every start; the 1 s timeout of wait_for_cpr_responses is shortened to "
                "0.08 s in the harness, a timer value only)",
+               "real-time pause cases count only when no two reads were more than 400 ms apart (else repeated, after "
+               "three attempts not counted): only the lower side of the pause matters",
                "applications that run at the same time on different inputs have an AppSession each "
                "(create_app_session; with a shared AppSession get_app() is the application started last - documented "
                "API contract, not modelled)",
@@ -721,7 +725,7 @@ def _split(data: bytes, cuts):
 
 def _chunks_of(case):
     toks = case["script"]
-    if case["mode"] in ("threadbytes", "asyncbytes") or case.get("layer") == "P":
+    if case["mode"] in ("threadbytes", "asyncbytes", "pause") or case.get("layer") == "P":
         return _split(b"".join(tok_bytes(t) for t in toks), case["cuts"])
     # cuts are token indices
     out, a = [], 0
@@ -743,6 +747,16 @@ def _e2e_sync(case) -> _Run:
         app = session.app
         if case.get("tt") is not None:
             app.ttimeoutlen = case["tt"]
+        read_times = []
+        if mode == "pause":
+            # real time, DEFAULT ttimeoutlen: remember when the input object delivered something
+            _rk0 = inp.read_keys
+
+            def _timed_read_keys():
+                keys = _rk0()
+                read_times.append(time.monotonic())
+                return keys
+            inp.read_keys = _timed_read_keys
         writer = None
         if mode == "pre":
             for c in chunks:
@@ -793,7 +807,28 @@ def _e2e_sync(case) -> _Run:
                 time.sleep(pd / 1000.0)
         if writer is not None:
             writer.join(watchdog_s(case) * 2)
+        if mode == "pause":
+            inp.read_keys = _rk0
+            run.maxgap = max([b - a for a, b in zip(read_times, read_times[1:])] or [0.0])
         run.leftover = [c for c in (kp_code(x) for x in _drain(inp)) if c != -3]
+    return run
+
+
+MAX_REAL_GAP_S = 0.4      # a real-time case counts only when no two reads were further apart than this
+
+
+def _e2e_pause(case) -> _Run:
+    """the writer pauses `pause` ms inside escape sequences; ttimeoutlen is NOT overridden.  Only the
+    lower side of the pause matters for the property (well below the 500 ms default); when the machine
+    was so slow that two reads ended up more than 400 ms apart the attempt is repeated, and after three
+    such attempts the case is not counted (the reference result is reported)"""
+    for _ in range(3):
+        run = _e2e_sync(case)
+        if getattr(run, "maxgap", 0.0) <= MAX_REAL_GAP_S:
+            return run
+    run = _Run()
+    run.results, run.leftover = expected(case["script"], case["k"])
+    run.skipped = True
     return run
 
 
@@ -1043,6 +1078,8 @@ def real_run(case) -> _Run:
         run = _new_loop_run(_step_multi_async(case))
     elif case["kind"] == "step":
         run = _new_loop_run(_step_async(case), vclock=bool(case.get("vclock")))
+    elif case["mode"] == "pause":
+        run = _e2e_pause(case)
     elif case["mode"] == "gap":
         run = _new_loop_run(_e2e_gap(case))
     elif case["mode"] in ("async", "cprwait", "asyncbytes"):
@@ -2231,6 +2268,39 @@ def cases_a(tier, rng):
         yield mk_e2e_gap(rng, lines, sleep_ms=rng.choice([0, 0, 2]))
 
 
+# ---- real time, DEFAULT ttimeoutlen: the writer pauses well below the default inside a sequence
+def mk_e2e_pause(rng, toks, split_toks, pause_ms):
+    """cut inside every token of `split_toks` (indices), the writer pauses before the rest"""
+    cuts, off = [], 0
+    for j, t in enumerate(toks):
+        b = tok_bytes(t)
+        if j in split_toks and len(b) > 1:
+            cuts.append(off + rng.randrange(1, len(b)))
+        off += len(b)
+    k = fins(toks)
+    case = {"kind": "e2e", "mode": "pause", "k": k, "script": list(toks), "cuts": cuts,
+            "delays": [0] + [pause_ms] * len(cuts), "pdelay": 0}
+    case["msched"] = [["W", toks]] + completion(k)
+    return case
+
+
+def cases_pause(tier, rng):
+    quick = tier == "quick"
+    cpr = "CPR:12;40"
+    scripts = [(["a", "b", "LEFT", "c", "ENTER", "x", "ENTER"], [2]),
+               (["a", cpr, "b", "ENTER", "DEL", "y", "ENTER"], [1]),
+               (["a", "b", "ENTER", cpr, "HOME", "c", "ENTER"], [3, 4])]
+    for toks, idx in scripts:
+        for pause in ((150,) if quick else (120, 150, 200)):
+            yield mk_e2e_pause(rng, toks, idx, pause)
+    for _ in range(2 if quick else 12):
+        toks = inject_cpr(rng, rand_script(rng, 2, rich=True, tail=False), p=0.15)
+        idx = [j for j, t in enumerate(toks) if (t in SPLITTABLE or t.startswith("CPR:"))]
+        idx = rng.sample(idx, min(len(idx), 2))
+        if idx:
+            yield mk_e2e_pause(rng, toks, sorted(idx), rng.choice([120, 150]))
+
+
 def rand_script(rng, nlines, rich=True, tail=None):
     chars = "abcxyz01 -_" + ("éß世✓" if rich else "")
     edits = ["BS", "DEL", "LEFT", "LEFT2", "RIGHT", "HOME", "END", "CK", "CU", "CA", "CE", "CB", "CF"]
@@ -2350,6 +2420,8 @@ def cases(tier, rng):
     yield from cases_v(tier, rng)
     # ---- sixth layer: one event loop, writes between prompts, a CPR seen and then unanswered requests
     yield from cases_a(tier, rng)
+    # ---- real time with the DEFAULT ttimeoutlen: pauses inside sequences well below the default
+    yield from cases_pause(tier, rng)
     # ---- random step cases
     nstep = 120 if quick else 1500
     for _ in range(nstep):
